@@ -377,3 +377,48 @@ def t1_specs(tier="quick"):
             out.append(("contracts.bitbuffer", "make_bb", (W, e, "write", False)))
             out.append(("contracts.bitbuffer", "make_bb", (W, e, "flush", False)))
     return out
+
+
+class BBWeak(Case):
+    """C08: BitBuffer.read under the weak stream contract with a real storage type: it returns only if the whole unit
+    was delivered; a short delivery raises EOFError; a stream fault propagates."""
+
+    functions = ["dissect/cstruct/bitbuffer.py:BitBuffer.read"]
+
+    def __init__(self, tname, endian):
+        self.tname, self.endian = tname, endian
+        self.name = f"bitbuffer:weak-stream[{tname},{endian}]"
+
+    def body(self, ctx):
+        from dissect.cstruct import cstruct
+        from dissect.cstruct.bitbuffer import BitBuffer
+        from pyvc.stream import WeakStream
+
+        cs = cstruct(endian=self.endian)
+        cs.load("enum E : uint16 { A = 1 };", compiled=False)
+        T = getattr(cs, self.tname)
+        n = T.size
+        s = WeakStream(ctx)
+        it = Interp(ctx)
+        bb = BitBuffer(s, self.endian)
+        try:
+            it.call(BitBuffer.read, [bb, T, 3])
+        except PyRaise as e:
+            if any(x[2] for x in s.log):
+                ctx.prove("stream-fault-propagates", e.cls is OSError, info=e.cls.__name__)
+            else:
+                ctx.prove("short-delivery-raises-EOFError", e.cls is EOFError, info=e.cls.__name__)
+            ctx.cover("refused")
+            return
+        ctx.cover("returns")
+        ctx.prove("no-fault-swallowed", not any(x[2] for x in s.log))
+        ctx.prove("unit-fully-delivered", z3.And(*[zint(x[1]) == zint(x[0]) for x in s.log]) if s.log else False)
+        ctx.prove("reads-exactly-the-unit", _norm(sum((zint(x[0]) for x in s.log), z3.IntVal(0)) == n))
+
+
+def make_bbweak(tname, endian):
+    return BBWeak(tname, endian)
+
+
+def weak_specs():
+    return [("contracts.bitbuffer", "make_bbweak", (t, e)) for t in ("uint8", "uint16", "int32", "uint64", "uint24", "char") for e in ("<", ">")]
